@@ -465,6 +465,9 @@ func (g *G) gen(ctx []Var, A *Ty, fuel int, self string) *Term {
 		return g.rightNeg(ctx, A, U, fuel, self)
 	}
 	if len(ctx) > 0 {
+		if len(ctx) == 1 && Equal(ctx[0].T, A, g.Env) && A.M.Contract() && fuel > 0 && g.splits < g.O.MaxSplit && g.coin(g.O.Split) {
+			return g.splitFwd(ctx[0], A, fuel, self)
+		}
 		if len(ctx) == 1 && Equal(ctx[0].T, A, g.Env) && g.coin(40) {
 			g.feat("fwd")
 			return &Term{Op: "fwd", X: g.pol(g.selfRef(self), A), Y: g.pol(ctx[0].N, A)}
@@ -474,6 +477,9 @@ func (g *G) gen(ctx []Var, A *Ty, fuel int, self string) *Term {
 		}
 		if fuel > 0 && A.M.Contract() && g.splits < g.O.MaxSplit && g.coin(g.O.Capture) {
 			return g.captureServer(ctx, A, fuel, self)
+		}
+		if fuel > 0 && A.M.Weaken() && len(ctx) >= 2 && g.coin(g.O.Capture) {
+			return g.captureDrop(ctx, A, fuel, self)
 		}
 		if t := g.clientAxiom(ctx, A, fuel, self); t != nil {
 			return t
@@ -1085,7 +1091,44 @@ func (g *G) captureServer(ctx []Var, A *Ty, fuel int, self string) *Term {
 		return &Term{Op: "new", Y: r, Ann: Unit(m), Body: &Term{Op: "sel", X: s, Lbl: "go", Y: "self"}, Cont: &Term{Op: "wait", X: r, Cont: c}}
 	}
 	rest := g.gen(nil, A, fuel-1, self)
+	if m.Weaken() && g.coin(35) {
+		// one half is used, the other dropped: a parked process holding every captured channel
+		// is told to go away and has to pass the request on to all of them
+		g.feat("capture-server-drop-half")
+		if g.coin(50) {
+			return &Term{Op: "new", Y: srv, Body: g.cutCall(f.Name, args), Cont: &Term{Op: "split", X: srv, Y: s1, Z: s2, Cont: &Term{Op: "drop", X: s1, Cont: use(s2, r2, rest)}}}
+		}
+		return &Term{Op: "new", Y: srv, Body: g.cutCall(f.Name, args), Cont: &Term{Op: "split", X: srv, Y: s1, Z: s2, Cont: use(s1, r1, &Term{Op: "drop", X: s2, Cont: rest})}}
+	}
 	return &Term{Op: "new", Y: srv, Body: g.cutCall(f.Name, args), Cont: &Term{Op: "split", X: srv, Y: s1, Z: s2, Cont: use(s1, r1, use(s2, r2, rest))}}
+}
+
+// captureDrop: the whole context is handed to a server of type &{go : 1} that is dropped
+// without ever being used: the drop request reaches a parked process with several free
+// names (positive and negative ones) and must be passed on to each of them.
+func (g *G) captureDrop(ctx []Var, A *Ty, fuel int, self string) *Term {
+	m := A.M
+	S := With(m, Branch{L: "go", T: Unit(m)})
+	g.nFn++
+	f := &Func{Name: fmt.Sprintf("srvd%d", g.nFn), Ret: S}
+	for _, v := range ctx {
+		f.Params = append(f.Params, Var{"", g.vary(v.T)})
+	}
+	g.P.Funcs = append(g.P.Funcs, f)
+	g.scope(func() {
+		for i := range f.Params {
+			f.Params[i].N = g.fresh("q")
+		}
+		k := g.fresh("z")
+		f.Body = &Term{Op: "case", X: "self", Brs: []CaseBr{{Lbl: "go", Var: k, Body: g.gen(cp(f.Params), Unit(m), fuel-1, k)}}}
+	})
+	var args []string
+	for _, v := range ctx {
+		args = append(args, v.N)
+	}
+	srv := g.fresh("g")
+	g.feat("capture-drop")
+	return &Term{Op: "new", Y: srv, Body: g.cutCall(f.Name, args), Cont: &Term{Op: "drop", X: srv, Cont: g.gen(nil, A, fuel-1, self)}}
 }
 
 // cutCall builds the call used as the body of a cut; with probability ExplicitSelf the
@@ -1096,4 +1139,37 @@ func (g *G) cutCall(fn string, args []string) *Term {
 		return &Term{Op: "call", Fn: fn, Args: append([]string{"self"}, args...)}
 	}
 	return &Term{Op: "call", Fn: fn, Args: args}
+}
+
+// splitFwd: the only channel in scope has the type to be provided: it is split, one half is
+// consumed and the other one forwarded to. The forward's target is then a name provided by
+// the multi-name forward the split created.
+func (g *G) splitFwd(x Var, A *Ty, fuel int, self string) *Term {
+	g.splits++
+	g.feat("split-fwd")
+	s1, s2 := g.fresh("s"), g.fresh("s")
+	keep, other := s1, s2
+	if g.coin(50) {
+		keep, other = s2, s1
+	}
+	if A.M.Weaken() && g.coin(40) {
+		// nothing between the split and the forward but a drop
+		g.feat("split-drop-fwd")
+		return &Term{Op: "split", X: g.pol(x.N, x.T), Y: s1, Z: s2, Cont: &Term{Op: "drop", X: other, Cont: &Term{Op: "fwd", X: g.pol(g.selfRef(self), A), Y: g.pol(keep, A)}}}
+	}
+	fn := g.consFunc(x.T, A.M, fuel-1)
+	u := g.fresh("u")
+	fw := &Term{Op: "fwd", X: g.pol(g.selfRef(self), A), Y: g.pol(keep, A)}
+	if g.coin(60) {
+		// the forward to the kept half is made at once by a spawned identity process (it races
+		// with the forward request of the split itself); the parent consumes the other half
+		g.nFn++
+		id := &Func{Name: fmt.Sprintf("idf%d", g.nFn), Params: []Var{{"z", g.vary(x.T)}}, Ret: g.vary(A)}
+		id.Body = &Term{Op: "fwd", X: "self", Y: "z"}
+		g.P.Funcs = append(g.P.Funcs, id)
+		y := g.fresh("y")
+		g.feat("split-fwd-at-once")
+		return &Term{Op: "split", X: g.pol(x.N, x.T), Y: s1, Z: s2, Cont: &Term{Op: "new", Y: y, Body: g.cutCall(id.Name, []string{keep}), Cont: &Term{Op: "new", Y: u, Body: g.cutCall(fn, []string{other}), Cont: &Term{Op: "wait", X: u, Cont: &Term{Op: "fwd", X: g.pol(g.selfRef(self), A), Y: g.pol(y, A)}}}}}
+	}
+	return &Term{Op: "split", X: g.pol(x.N, x.T), Y: s1, Z: s2, Cont: &Term{Op: "new", Y: u, Body: g.cutCall(fn, []string{other}), Cont: &Term{Op: "wait", X: u, Cont: fw}}}
 }
